@@ -3,8 +3,8 @@ from common_cfg import COMMON_TRUSTED
 
 CFG = dict(
     harness="c05",
-    translators=[],
-    model_targets=["Disp/Cases.vo"],
+    translators=["tr-c05-maptypes"],
+    model_targets=["Disp/Cases.vo", "Disp/HostCases.vo"],
     proof_targets=["Props/C05.vo"],
     props="Props/C05.v",
     harness_timeout=2400,
@@ -13,7 +13,8 @@ CFG = dict(
     level_text="Coq theorems over all universes of declared struct types, methods and interfaces (any size, any embedding depth, embedded pointers and cycles): selector resolution of the depth-first mechanism equals Go's shallowest-depth rule whenever the first hit lies at the shallowest depth (C05_lookup_partial) with refutation witnesses elsewhere; yaegi's method-name sets contain Go's method sets (C05_methodset) and equal them when every name resolves (C05_methodset_partial); two-result assertions to interfaces agree under consistent signatures (C05_assert_partial); type switches over concrete clauses agree (C05_switch_partial). Y is tied to the source on every run by function-level correspondence (lookupField / lookupMethod / methodDepth / methods / implements on every (type, name) of every generated universe) and program-level correspondence (every call and assertion form, identity and receiver state printed), both evaluated inside Coq; G is validated against go/types and compiled Go on the same cases.",
     level_note="Trusted: Coq kernel + vm_compute, no axioms; harness; go/types and the Go toolchain as reference. The receiver-state semantics of the call forms and the host-interface wrappers are compared between yaegi and compiled Go only (not modelled in Coq).",
     technique="Coq proof (induction over fuel, field lists and levels; closure argument for the seen-set traversal) + model/implementation correspondence evaluated in Coq at function and program level",
-    assumptions=["struct types are kept structurally distinct (a unique state field per type), as the property's quantifier prescribes",
+    assumptions=["the consumers of Disp/Host.v (what compiled fmt, encoding/json and io probe for, in which order) are transcribed by hand from the installed release and validated against compiled Go on every generated case (MG)",
+                 "struct types are kept structurally distinct (a unique state field per type), as the property's quantifier prescribes",
                  "interface embedding is flattened by one function shared by Y and G (embedding cycles among interfaces are illegal in both)",
                  "signatures are abstracted to the number of int parameters (two signatures are generated: func() string and func(int) string)",
                  "type switches and assertions on values of static type interface{} and the errors.Is/As probes are exercised by fixed witnesses only"],
